@@ -124,7 +124,7 @@ def run(ctx, rep, tier):
                "pairs (all strings up to 4 (6) code points; every argument-taking keyword with 0..2 (4) arbitrary characters; decimal strings up "
                "to 21 (40) digits after numeric keywords with and without unit; octal strings up to 12 (14) digits; slot-aligned word "
                "sequences); z3 decides reachability of every panic outcome; panics are classified by site and message" % n_fam,
-               bounds=dict(any_len=4 if tier == "quick" else 6, families=n_fam), samples=samples,
+               bounds=dict(any_len=4 if tier == "quick" else 5, families=n_fam), samples=samples,
                outside="inputs longer than the bounds (the property's 4 KiB / nesting 64: stack depth is not decidable by this encoding), "
                        "allocation failure; termination inside the bound follows from the interpreter terminating with every repeat "
                        "iteration consuming input (a non-consuming iteration is reported as winnow's assert outcome)",
